@@ -12,16 +12,26 @@ CONSTANTS
   ONF = 0
   ONFs = {0}
   OthCorpora <- OthAll
-  Ghosts <- NoGhost
+  NRep = 1
+  StartVecs <- AccFirst
+  StartRule = "every"
   DoneRule = "all"
   EmitVec = FALSE
   Emit = FALSE
+  EmitStartVec = FALSE
+  Pars = {1}
+  NOcc = 0
+  CrashPoints = "any"
+  PersistAt = "start"
 INVARIANT TypeOK
 INVARIANT FinalFilesComplete
 INVARIANT DoneImpliesSyncResult
 INVARIANT SyncIsRef
 INVARIANT PartialWithinFinal
 INVARIANT AckedRequestSurvives
+INVARIANT KnownIsPersisted
+INVARIANT QueuedIsPersisted
+INVARIANT SlotsBounded
 INVARIANT PersistedPartialsSurvive
 INVARIANT DoneIsDurable
 INVARIANT NoPartialLostOrDuplicated
